@@ -15,6 +15,12 @@ Q4_SenderOps == [s1 |-> <<"send", "send", "send">>, s2 |-> <<"weCb">>]
 Q6_SenderOps == [s1 |-> <<"send", "send">>, s2 |-> <<"blockTokio">>]
 Q6_FlusherOps == [f1 |-> "flush0"]
 Q4_FlusherOps == [f1 |-> "flushTokio", f2 |-> "cbPark"]
+\* seventh quick config: one thread flushes twice (a timed-out flush, then a waiting one)
+Q7_SenderOps == [s1 |-> <<"send", "send">>]
+Q7_FlusherOps == [f1 |-> "flush0", f2 |-> "flushInfSame"]
+\* eighth quick config: raw when_empty callbacks that panic (inline on the caller, or on the receiver)
+Q8_SenderOps == [s1 |-> <<"weCbPanic", "send">>, s2 |-> <<"send", "weCbPanic", "try">>]
+Q8_FlusherOps == [f1 |-> "flushInf"]
 \* liveness with the newer actor kinds
 L2_SenderOps == [s1 |-> <<"send", "send">>, s2 |-> <<"weCb">>]
 L2_FlusherOps == [f1 |-> "flushTokio", f2 |-> "cbPark"]
